@@ -328,6 +328,28 @@ def wrappers(chk):
              any(k.arg == 'dtype' and unparse(k.value) == 'np.uint64' for k in n.keywords) for n in walk_no_nested(f2))
     chk.check(t1 and t2, 'C04-R7', BP, 'unpack_rvint/unpack_pids', 'input word types pinned (int32 / uint64)',
               'assert intdata.dtype == np.int32; packed coerced to uint64', f'input typing missing: int32 assert={t1}, uint64 coercion={t2}', node=fn)
+    # the row count that sizes the outputs (and is reported for supplied outputs) is the number of (x, y, z) word triples the kernel
+    # decodes: the length of the (-1, 3) view of the input, whatever layout (flat or (N, 3)) the caller passed
+    inp_name = fn.args.args[0].arg
+    shaped = False
+    okN, whyN = False, 'no row count N = len(<input viewed as (-1, 3)>) found'
+    for st in fn.body:
+        if isinstance(st, ast.Assign) and len(st.targets) == 1 and unparse(st.targets[0]) == inp_name:
+            shaped = unparse(st.value).replace(' ', '') in (f'{inp_name}.reshape(-1,3)', f'{inp_name}.reshape((-1,3))', f'np.reshape({inp_name},(-1,3))')
+            continue
+        if isinstance(st, ast.Assign) and len(st.targets) == 1 and unparse(st.targets[0]) == 'N':
+            v = unparse(st.value).replace(' ', '')
+            if v in (f'len({inp_name})', f'{inp_name}.shape[0]'):
+                okN = shaped
+                whyN = f'N = {unparse(st.value)} is taken ' + ('from the (-1, 3) view' if shaped else
+                                                               'BEFORE the input is viewed as (-1, 3): a flat array of 3N words gives 3N rows, the outputs are allocated three times too long '
+                                                               '(2N rows of uninitialised memory) and 3N particles are reported')
+            elif v in (f'len({inp_name}.reshape(-1,3))', f'{inp_name}.size//3'):
+                okN, whyN = True, f'N = {unparse(st.value)}'
+            else:
+                okN, whyN = False, f'N = {unparse(st.value)}'
+            break
+    chk.check(okN, 'C04-R7', BP, 'unpack_rvint', 'row count = number of word triples of the (-1, 3) view the kernel receives', whyN, whyN, node=fn)
     # the compiled kernel is called with the prepared buffers in the documented positions
     call = [n for n in walk_no_nested(fn) if isinstance(n, ast.Call) and dotted(n.func) == '_unpack_rvint']
     okc = len(call) == 1 and [unparse(x) for x in call[0].args] == ['intdata', 'boxsize', '_posout', '_velout']
